@@ -103,6 +103,8 @@ func runStress(c *Ctx, o stressOpts) *stressResult {
 		}
 		return "get"
 	}
+	wd := lab.NewWatchdog(o.Workers+o.Probers+2, 120*time.Second, lab.HangInconclusive(c.R, c.Out))
+	defer wd.Stop()
 	clients := make([]*lab.Client, o.Workers+o.Probers+1)
 	for i := range clients {
 		clients[i] = l.NewClient()
@@ -132,7 +134,9 @@ func runStress(c *Ctx, o stressOpts) *stressResult {
 							wk = w % nk
 						}
 					}
-					switch pickOp(rng) {
+					op := pickOp(rng)
+					wd.Enter(w, op+" in "+o.Name)
+					switch op {
 					case "get":
 						cl.Get(k)
 						getsSinceClear.Add(1)
@@ -165,6 +169,7 @@ func runStress(c *Ctx, o stressOpts) *stressResult {
 							cl.UpdateMaxCost(l.C.MaxCost() + int64(rng.Intn(3)))
 						}
 					}
+					wd.Leave(w)
 				}
 			}(w)
 		}
@@ -199,8 +204,10 @@ func runStress(c *Ctx, o stressOpts) *stressResult {
 		pwg.Wait()
 
 		if o.Quiesce {
+			wd.Enter(o.Workers+o.Probers, "Wait/Pause at a barrier in "+o.Name)
 			main.Wait()
 			l.C.Pause()
+			wd.Leave(o.Workers + o.Probers)
 			res.Snaps++
 			fs := checkQuiescent(l, &o, getsSinceClear.Load(), getsTotal.Load(), setsFalse.Load(), main)
 			res.Findings = append(res.Findings, fs...)
@@ -227,6 +234,8 @@ func runStress(c *Ctx, o stressOpts) *stressResult {
 		res.Findings = append(res.Findings, finalDrain(l, &o, main)...)
 	}
 
+	wd.Enter(o.Workers+o.Probers, "final Wait/Clear/Close in "+o.Name)
+	defer wd.Leave(o.Workers + o.Probers)
 	main.Wait()
 	switch o.EndWith {
 	case "clear":
